@@ -25,7 +25,7 @@ PROPS = {
     },
     "C04": {
         "title": "Everything runs exactly once and a completed run is quiescent",
-        "lean": ["TopsimProps.SysSafety", "TopsimProps.C04", "TopsimProps.C19", "TopsimProofs.Bridge.Queries", "TopsimProps.L3", "TopsimProps.C04Witness"],
+        "lean": ["TopsimProps.SysSafety", "TopsimProps.C04", "TopsimProps.C19", "TopsimProofs.Bridge.Queries", "TopsimProps.L3", "TopsimProps.C04Witness", "TopsimProps.C04Table"],
         "streams": [("default", 32, 500), ("adversary", 24, 400), ("chaotic", 16, 300), ("edge", 16, 300), ("hotwait", 12, 200), ("batch", 12, 200)],
         "monitor": ["C04"],
     },
@@ -50,7 +50,7 @@ PROPS = {
     },
     "C08": {
         "title": "Observations start only when all resources are free, and on time when idle",
-        "lean": ["TopsimProps.C08", "TopsimProps.C08Traj", "TopsimProofs.Bridge.Admission", "TopsimProofs.Bridge.Sched"],
+        "lean": ["TopsimProps.C08", "TopsimProps.C08Traj", "TopsimProofs.Bridge.Admission", "TopsimProofs.Bridge.Sched", "TopsimProps.C08Sim"],
         "streams": [("default", 40, 600), ("contended", 16, 300), ("idlestart", 12, 150), ("edge", 32, 600), ("hotwait", 12, 200)],
         "monitor": ["C08"],
     },
@@ -88,7 +88,7 @@ PROPS = {
     },
     "C14": {
         "title": "A generated plan is a faithful copy of the workflow graph",
-        "lean": ["TopsimProps.C14", "TopsimProofs.Bridge.Plan"],
+        "lean": ["TopsimProps.C14", "TopsimProofs.Bridge.Plan", "TopsimProps.C14Traj"],
         "streams": [("default", 12, 150), ("contended", 8, 100)],
         "direct": ["c14"],
         "monitor": ["C14"],
